@@ -476,4 +476,18 @@ theorem insert_eq (s : PosPQ) (position x : Nat) :
   · have hd' : ((PosPQ.promote H draw position s []).2.length == position) = false := by simpa using hd
     simp [hd, hd']
 
+/-! ### completeness -/
+
+/-- `PriorityValue` and `PosPriorityQueue` have exactly these methods and every one of them was
+    translated (each is proved equal to its model definition above): a method that is added, removed
+    or leaves the supported subset breaks this theorem. -/
+theorem methods_complete :
+    Gen.PosPQ.methods =
+      [("PriorityValue.__lt__", true), ("PriorityValue.priority", true), ("__bool__", true),
+       ("__init__", true), ("__iter__", true), ("__len__", true), ("append", true), ("append_pri", true),
+       ("boost_stragglers", true), ("clear", true), ("compute_priority_boost", true),
+       ("do_maintenance", true), ("find", true), ("insert", true), ("popleft", true), ("remove", true),
+       ("reschedule", true), ("reschedule_all", true), ("update_counters", true)] := by
+  decide
+
 end Asynkit.GenEqPosPQ
